@@ -30,6 +30,8 @@ ALLOWED_AXIOMS = set()
 
 # extra Coq targets a property needs besides Properties/<id>.vo and Corr/Run<id>.vo
 EXTRA_TARGETS = {}
+# properties sharing the type-generator case family use Corr/CheckTG.v
+TG_PROPS = {"C01", "C02", "C05", "C06", "C07", "C08", "C09", "C10", "C17", "C18"}
 
 
 def sh(cmd, cwd=None, timeout=None, env=None):
@@ -81,7 +83,8 @@ def ensure_makefile():
 def build_coq(prop):
     """returns (ok, log, assumptions: dict theorem -> text)"""
     ensure_makefile()
-    targets = ["Properties/%s.vo" % prop, "Corr/Run%s.vo" % prop] + EXTRA_TARGETS.get(prop, [])
+    corr = "Corr/CheckTG.vo" if prop in TG_PROPS else "Corr/Run%s.vo" % prop
+    targets = ["Properties/%s.vo" % prop, corr] + EXTRA_TARGETS.get(prop, [])
     # always recompile the small property file so that Print Assumptions is fresh evidence
     pf = os.path.join(COQ, "Properties", prop + ".vo")
     if os.path.exists(pf):
